@@ -184,8 +184,13 @@ _RT_TRUSTED = ["modelled, not verified: Go's regexp engine (leftmost-first backt
                "spec judges for the rt cases (ocaml/rt.ml) are hand-written OCaml on top of the extracted parse_pat / pat_matches / pat_params / spec_select functions"]
 
 PROPS["C01"] = dict(
+    claim=dict(
+        text="Machine-checked proof (Coq 8.16): for every table of grammar-level routes (static paths and patterns with literals, {name}, {name:regex}, global variables, nested optional tails; any method sets), every '/'-free method and every normalised path, the router's three-tier lookup (static map keyed method+path, first-node index with literal-prefix filter, residual list; routes stored by id in Go-map-like association lists) selects exactly what the documented rule prescribes - exact static path first, then the earliest registered matching pattern with a complete literal first segment, then the earliest other matching pattern (C01_selection); the selected route allows the method and its pattern matches the whole path in the declarative semantics, and 'no route' is reported only if no registered route does (C01_sound, C01_complete, via soundness+completeness of the backtracking matcher for the declarative regex semantics); the same holds with the cache on (C01_cached). Tie to the code: generated overlapping tables x probes (instantiations, single-edit mutations, hostile strings); the implementation's selection is compared with the extracted string-level model (pattern compiler + regex parser + tables) and judged by spec_select on the grammar-level AST; on every generated pattern an executable link check compares the string-level compiler with the grammar-level one (start, first node, variable names).",
+        note="Trusted: Coq kernel, extraction, driver, harness. The theorem is about routers built from the grammar-level AST (PatTable.build); the string-level front end (strings.Replacer-style text assembly + regexp.MustCompile) is tied to it by the executable link check and by the probes, not by proof (the parse/print round trip was not attempted). Go's regexp engine is modelled (leftmost-first backtracking) on the parser subset.",
+        technique="Coq proof: three-tier lookup = priority rule over a declarative pattern semantics (tier characterisation + prefix/first-node soundness + matcher soundness/completeness); extracted model vs implementation differential check"),
     n=dict(quick=1500, thorough=40000),
     consts=["any-methods", "global-vars", "any-match"],
+    theorems=["C01_selection", "C01_sound", "C01_complete", "C01_cached"],
     rule="case = table of 1..10 routes (static paths and patterns from an AST generator: literal segments over a small shared pool incl. a.b / v1.0, {v}, "
          "{v:re} with 12 regex kinds, global variables, literal prefix/suffix inside a segment, 0..2 nested optional tails), any subset of the 9 methods, "
          "optional StrictLastSlash / cache; 12 Router.Match probes: instantiations of the table's own patterns (85% valid values), single-edit mutations, a few "
@@ -208,8 +213,13 @@ PROPS["C02"] = dict(
     assumptions=["assume-guarantee: route selection is taken from the implementation (C01 decides it)"],
 )
 PROPS["C06"] = dict(
+    claim=dict(
+        text="Machine-checked proof (Coq 8.16): for every grammar-level table, every combination of StrictLastSlash / HandleMethodNotAllowed / HandleFallbackRoute, every '/'-free method and every path, QuickMatch equals the documented decision list: direct match; else for HEAD the GET match; else the '/*' route registered for the method when fallback handling is on; else not-allowed with the allowed set equal to exactly the other methods that match, when 405 handling is on and that set is non-empty; else not found (C06_order, on top of C01_selection); caching does not change the resolution (C06_cached); with InterceptAll every request path resolves alike (C06_intercept) and the intercept path is normalised like a request path (F14 refuted witness for the old code); the default handlers are 405 + sorted Allow (200 for OPTIONS) and 404 (C06_default_*). Tie to the code: tables x random option combinations (incl. caching, InterceptAll in several spellings, '/*' routes per method) x custom/default fallback handlers x probes with HEAD, OPTIONS, unknown methods through Router.Match and ServeHTTP; resolution, status, Allow header and who ran are compared with the extracted model and judged by the ladder computed from the grammar-level table.",
+        note="Trusted: Coq kernel, extraction, driver, harness; as C01 for the string-level front end. C06_order is stated for routers without caching and InterceptAll; caching is covered by C06_cached/C07, InterceptAll by C06_intercept plus the correspondence.",
+        technique="Coq proof: QuickMatch = decision list over spec_select; extracted model vs implementation differential check"),
     n=dict(quick=1500, thorough=40000),
     consts=["any-methods"],
+    theorems=["C06_order", "C06_cached", "C06_intercept", "C06_default_405", "C06_default_404"],
     rule="case = table as for C01 (+ '/*' routes for all / one / two methods) x random combination of StrictLastSlash, HandleMethodNotAllowed, HandleFallbackRoute, "
          "caching, InterceptAll(p in several spellings) x custom or default NotFound/NotAllowed x 14 probes (table methods, HEAD, OPTIONS, unknown/lower-case "
          "methods) through Router.Match and ServeHTTP. Observed: resolution (route / allowed set / not found), status, Allow header, who ran. "
